@@ -4,8 +4,49 @@
 #![allow(dead_code, unused_imports, clippy::all, missing_docs, unreachable_pub)]
 
 /// `crate::adapter::WinconBytes`: the real styled-run extractor
+#[cfg(not(feature = "scripted_runs"))]
 pub mod adapter {
     pub use anstream::adapter::WinconBytes;
+}
+
+/// Assume-guarantee split (feature `scripted_runs`): the extractor is replaced by a script
+/// of styled runs chosen by the harness, so the solver explores the stream's own code
+/// (colour capping, write loops, error paths) over ARBITRARY styles without paying for the
+/// escape parser.  What the real extractor yields for an input is property C07.
+#[cfg(feature = "scripted_runs")]
+pub mod adapter {
+    #[derive(Default, Clone, Debug, PartialEq, Eq)]
+    pub struct WinconBytes {
+        pub runs: [(anstyle::Style, &'static str); 2],
+        pub n: usize,
+        /// how many times extraction was started (one per write-family call)
+        pub started: usize,
+    }
+    impl WinconBytes {
+        pub fn new() -> Self {
+            Default::default()
+        }
+        pub fn extract_next<'s>(&'s mut self, _bytes: &'s [u8]) -> WinconBytesIter<'s> {
+            self.started += 1;
+            WinconBytesIter { st: self, i: 0 }
+        }
+    }
+    pub struct WinconBytesIter<'s> {
+        st: &'s mut WinconBytes,
+        i: usize,
+    }
+    impl Iterator for WinconBytesIter<'_> {
+        type Item = (anstyle::Style, String);
+        fn next(&mut self) -> Option<Self::Item> {
+            if self.i < self.st.n && self.i < 2 {
+                let (s, t) = self.st.runs[self.i];
+                self.i += 1;
+                Some((s, String::from(t)))
+            } else {
+                None
+            }
+        }
+    }
 }
 
 /// `crate::fmt::Adapter`: the real file
@@ -29,6 +70,10 @@ pub mod stream {
 pub mod console {
     include!("/repo/crates/anstream/src/wincon.rs");
 
-    #[cfg(all(kani, feature = "c18"))]
+    #[cfg(all(kani, feature = "c18", not(feature = "scripted_runs")))]
     mod harness;
+    #[cfg(all(kani, feature = "c18"))]
+    mod rec;
+    #[cfg(all(kani, feature = "c18", feature = "scripted_runs"))]
+    mod scripted;
 }
